@@ -6,7 +6,7 @@
 EXTENDS JetProg
 CONSTANTS Depth, Kinds
 
-Focals == {"ok", "fail", "failvar", "failset", "swok", "swfail"}
+Focals == {"ok", "fail", "failvar", "failset", "swok", "swfail", "ycok", "ycfail", "panicval", "rterr"}
 Catches == {"none", "catch", "catchvar", "catchfail", "catchvarshadow"}
 Outers == {"top", "inblock"}
 
@@ -17,6 +17,13 @@ Focal(f) ==
     [] f = "failset" -> <<SetS("ff", "g", Lit("z")), T("f1")>>
     \* a SafeWriter stage writes to the try buffer like everything else: in order, and not at all when the body fails
     [] f = "swok"    -> <<T("f0"), Raw("fw", Lit("w1")), T("f1")>>
+    \* {{yield content}} inside the try body (inside a block that was yielded with content): the content goes through
+    \* the try buffer like everything else
+    [] f = "ycok"    -> <<T("f0"), YContent("fyc"), T("f1")>>
+    [] f = "ycfail"  -> <<T("f0"), YContent("fyc"), P("ff", FailE), T("f1")>>
+    \* a try takes whatever stops its body: a user function panicking with a value that is no error, a Go runtime error
+    [] f = "panicval" -> <<T("f0"), P("ff", Ex("err", "panic")), T("f1")>>
+    [] f = "rterr"    -> <<T("f0"), P("ff", Ex("err", "rterror")), T("f1")>>
     [] f = "swfail"  -> <<T("f0"), Raw("fw", Lit("w1")), P("ff", FailE), T("f1")>>
 
 MkC(par) ==
@@ -38,5 +45,6 @@ MkC(par) ==
   IN [ts |-> <<ent, lib>> \o r.ts, globals |-> NoVarsMap, runs |-> <<RunR("main", NoVarsMap, "D")>>,
       tag |-> PathTag(path) \o "|" \o f \o "|" \o c \o "|" \o o]
 
-cParams == PathsUpTo(Kinds, Depth) \X Focals \X Catches \X Outers
+cParams == {p \in PathsUpTo(Kinds, Depth) \X Focals \X Catches \X Outers : /\ (p[2] \in {"ycok", "ycfail"} => (Len(p[1]) <= 1 /\ p[4] = "inblock"))
+                /\ (p[2] \in {"panicval", "rterr"} => Len(p[1]) <= 1)}
 =============================================================================
